@@ -295,6 +295,7 @@ def run(ctx):
     _r3(ctx, M, cg)
     _r2(ctx)
     _r6_renders_whatever_is_stored(ctx, cg)
+    _r7_gauges_move_together(ctx)
     # a lease whose row cannot be read is a lease missing from the listing: how the columns are read belongs to C18
     ctx.include("C18", rules=("R10",))
     # the gauges are computed from the rows at the time of the scrape: the pool keeps no copy of a count that time alone makes stale
@@ -482,6 +483,44 @@ def _r1_r4(ctx, M, cg):
                     ctx.check(any(ucfg.dominates(b3, ubb) and b3 != ubb for b3 in pre), "R5", "metrics-page-rendered-after-the-gauge-refresh",
                               ctx.where(ub, utm["sp"]), "the page must be produced only after %s ran (%d call(s) of it here)" % (refresher, len(pre)))
             ctx.floor("R5", "renderings of the metrics page", m, 1)
+
+
+def _r7_gauges_move_together(ctx):
+    """R7 the two lease gauges are a pair: wherever the refresher sets one of them it sets the other on the same path. A gauge that is
+    set only when its group has rows keeps the previous scrape's value when the group has become empty."""
+    P = ctx.P
+    n = 0
+    for cb in P.bodies.values():
+        if "::test" in cb.id or not cb.id.startswith("erbium::dhcp::"):
+            continue
+        sets = {}
+        T = None
+        for b2, t2 in cb.calls():
+            n2 = callee_name(t2) or ""
+            if not n2.endswith("::set") or "prometheus" not in n2:
+                continue
+            T = T or terms(P, cb)
+            g = norm(T.call_args(b2)[0])
+            while g[0] in ("ref", "deref") or (g[0] == "call" and len(g[2]) == 1 and str(g[1]).rsplit("::", 1)[-1] == "deref"):
+                g = norm(g[1] if g[0] != "call" else g[2][0])
+            gname = g[1][1] if g[0] == "const" and isinstance(g[1], tuple) and g[1][0] == "static" else None
+            role = _gauge_role(P, gname)
+            if role:
+                sets.setdefault(role, []).append((b2, t2))
+        if not sets:
+            continue
+        n += 1
+        ctx.saw(cb)
+        ccfg = cfg_of(cb)
+        rets = set(ccfg.return_blocks())
+        for role, other in (("active", "expired"), ("expired", "active")):
+            ob = tuple(b2 for b2, _ in sets.get(other, []))
+            for b2, t2 in sets.get(role, []):
+                covered = any(ccfg.dominates(o, b2) for o in ob) or (bool(ob) and not (ccfg.reachable_from(b2, blocked=ob) & rets))
+                ctx.check(covered, "R7", "lease-gauges-are-set-together:%s" % role, ctx.where(cb, t2["sp"]),
+                          "the %s-leases gauge is set on a path that does not set the %s-leases gauge" % (role, other))
+    if ctx.config in ("default", "dhcp"):
+        ctx.floor("R7", "functions that set the lease gauges", n, 1)
 
 
 def _gauge_role(P, static_path):
